@@ -5,6 +5,8 @@ import (
 	"errors"
 	"fmt"
 	"io"
+	"runtime"
+	"time"
 
 	"github.com/paulmach/osm"
 	"github.com/paulmach/osm/osmpbf"
@@ -48,6 +50,11 @@ var c06Classes = []c06Class{
 	{name: "bad-adler", fileLevel: true, strict: true, zlib: true},
 	{name: "zlib-truncated", fileLevel: true, strict: true, zlib: true},
 	{name: "bad-zlib-header", fileLevel: true, strict: true, zlib: true},
+	// the compressed stream is complete and correct but is followed by other bytes, or lacks
+	// part of its checksum trailer: the data is all there, so delivering it is defensible
+	// (grey: not strict) — what is not defensible is a hang or a crash
+	{name: "zlib-trailing", args: []int64{1, 4, 100}, fileLevel: true, strict: false, zlib: true},
+	{name: "zlib-trailer-cut", args: []int64{1, 3, 4}, fileLevel: true, strict: false, zlib: true},
 	{name: "unknown-encoding", fileLevel: true, strict: true},
 	{name: "empty-blob", fileLevel: true, strict: true},
 	{name: "block-type", args: []int64{0, 1}, strict: true},
@@ -299,7 +306,29 @@ func c06Exec(c fw.Case) *fw.Result {
 		want := c06SkipFilter(c06PrefixExpect(f, nIntact), skipMask)
 		posName := []string{"header", "first", "middle", "last"}[map[int]int{-1: 0, 0: 1, 1: 2, 2: 2, 3: 3}[pos]]
 		key := fmt.Sprintf("C06/damage/%s/%s", cl.name, posName)
-		sr := pbfScan(drd, procs, pos < 0 && c.Int("askheader") == 1, skipCfg, nil)
+		// The scan runs on its own goroutine so that a scanner that spins can be told from one
+		// that works, by a logical measure: cgo calls made by the process (the native zlib
+		// binding makes one per inflate step). Decoding these few small blocks takes some
+		// hundreds; two million without the scan ending is a loop that makes no progress.
+		// Such a goroutine cannot be stopped, so the child process ends after this case.
+		scanDone := make(chan scanResult, 1)
+		cgo0 := runtime.NumCgoCall()
+		go func() { scanDone <- pbfScan(drd, procs, pos < 0 && c.Int("askheader") == 1, skipCfg, nil) }()
+		var sr scanResult
+		for waiting := true; waiting; {
+			select {
+			case sr = <-scanDone:
+				waiting = false
+			default:
+				if n := runtime.NumCgoCall() - cgo0; n > 2_000_000 {
+					res.Violate(key+"/livelock", fmt.Sprintf("damage %s (arg %d) in %s block, %d decoders: the scan has made %d cgo calls without ending (decoding the whole file takes a few hundred): it spins inside the decompressor and never returns", cl.name, c.Int("arg"), posName, procs, n), map[string]any{"goroutines": mon.Goroutines("osmpbf")})
+					res.Poisoned = true
+					res.Eval(fmt.Sprintf("damage/%s/%s", cl.name, posName))
+					return res
+				}
+				time.Sleep(200 * time.Microsecond)
+			}
+		}
 		res.Event(int64(len(sr.Objs)) + 1)
 		scanAgain(res, sr, key)
 		// the intact prefix must be delivered exactly; nothing of later blocks, nothing invented
